@@ -4,4 +4,5 @@ import Driver.Server
 import Driver.Life
 import Driver.Net
 import Driver.Tls
+import Driver.Client
 import Driver.Main
